@@ -20,7 +20,8 @@
 (* recorded executions.                                                      *)
 (* Defects: "max_allowed" (min -> max), "lifo_wrong_end", "no_deduct",       *)
 (* "ignore_suspended", "create_and_delete", "overfill" - model mutants;      *)
-(* "no_default_policy"; "quiet_suspend" - mutant of the published            *)
+(* "no_default_policy", "susp_rebound"; "quiet_suspend" - mutant of the      *)
+(* published                                                                  *)
 (* bookkeeping (extension below).                                            *)
 EXTENDS AppMonOps, TLC
 
@@ -38,6 +39,9 @@ Apps == {AppSeq[i] : i \in DOMAIN AppSeq}
 Init == st = [now |-> 0, mon |-> EmptyFn, susp |-> EmptyFn,
               view |-> [a \in Apps |-> {}], pend |-> [a \in Apps |-> [create |-> 0, delete |-> {}]],
               nextid |-> 1, steps |-> 0,
+              osusp |-> EmptyFn,    \* observer: back-off periods derived from the handled API
+                                    \* failures and the clock alone (dropped when the monitor is deleted)
+              detached |-> FALSE,   \* mutant "susp_rebound" only
               pub |-> EmptyFn,      \* extension: the map stored in the /app-monitors node
               lastw |-> EmptyFn]    \* extension: `last_waited`, what the last reevaluate() returned
 
@@ -59,7 +63,8 @@ Configure(a, c, p) ==
 
 DeleteMonitor(a) ==
   /\ More /\ a \in DOMAIN st.mon
-  /\ st' = Step([st EXCEPT !.mon = Drop(@, a)])
+  /\ st' = Step([st EXCEPT !.mon = Drop(@, a),
+                           !.osusp = IF a \in DOMAIN @ THEN Drop(@, a) ELSE @])
 
 Tick(d) == More /\ d \in Ticks /\ st' = Step([st EXCEPT !.now = @ + d])
 
@@ -166,11 +171,20 @@ Evaluate(o) ==
                       IF a \in DOMAIN susp1 THEN susp1[a] ELSE r[a].wait]
          modified == \/ \E a \in DOMAIN st.susp : a \notin DOMAIN st.mon   \* vanished monitors
                      \/ \E a \in DOMAIN st.mon : r[a].mod
+         (* mutant "susp_rebound": dropping the entries of vanished monitors rebinds the  *)
+         (* local name to a private copy; from then on (the stale entry is never removed   *)
+         (* from the shared dict) every change of the suspension map is forgotten          *)
+         vanished == \E a \in DOMAIN st.susp : a \notin DOMAIN st.mon
+         det == "susp_rebound" \in Defects /\ (st.detached \/ vanished)
+         live == {a \in DOMAIN st.osusp : st.osusp[a] > st.now}
      IN st' = Step([st EXCEPT
+            !.detached = det,
+            !.osusp = [a \in live \cup failing |->
+                         IF a \in failing THEN st.now + DelayS ELSE st.osusp[a]],
             !.pub = IF modified THEN waited ELSE @,
             !.lastw = waited,
             !.mon = [a \in DOMAIN st.mon |-> r[a].mon],
-            !.susp = susp1,
+            !.susp = IF det THEN st.susp ELSE susp1,
             !.pend = [a \in Apps |->
                         IF a \in DOMAIN st.mon
                         THEN [create |-> st.pend[a].create + r[a].pcreate,
@@ -199,6 +213,11 @@ InvBudget == BudgetStep(Pre, AllCalls(1, AllOk), TOK, 0) /\ BudgetState(st.mon, 
 InvSurplus == Surplus(Pre, AllCalls(1, AllOk))
 InvNotBoth == NotBoth(AllCalls(1, AllOk))
 InvQuiet == Quiet(Pre, AllCalls(1, AllOk))
+(* ... and against the OBSERVER's back-off periods (handled failure at t => no   *)
+(* call for that monitor before t + 300 s, unless it was deleted meanwhile), not *)
+(* the monitor's own `suspended` dict: mutant "susp_rebound" forgets suspensions *)
+(* and passes InvQuiet, which trusts the dict                                    *)
+InvQuietObs == Quiet([Pre EXCEPT !.susp = st.osusp], AllCalls(1, AllOk))
 (* the rate budget in closed form, independent of the bucket's bookkeeping     *)
 (* (ghosts spent/since): since its (re)configuration a monitor obtained at     *)
 (* most the full bucket plus what accrued, 2*count per hour                    *)
